@@ -42,6 +42,12 @@
 (* sparse_connected_pixels the array certified for the threshold REQUESTED *)
 (* (tkey), whatever cut the frame's meta data record (None, 0, negative,   *)
 (* positive arguments x absent / equal / lower / higher recorded cut).     *)
+(* One labelimage object driven over a series of frames (peaksearch with   *)
+(* and without mergelast, labelpeaks): after every call blim / npk must be *)
+(* the certified array of that frame; for inserted frames with nothing     *)
+(* above the threshold (all below / all equal / all zero) the wrapper's    *)
+(* own blim, taken after two or more labelled frames, is sent here as a    *)
+(* certificate of its own (L1 rejects labels left over from older frames). *)
 (* NaN pixels are outside this module (no key; the property statement is   *)
 (* silent on them).                                                        *)
 (***************************************************************************)
